@@ -51,6 +51,7 @@ def main(argv=None):
             sweeps.py2_api(chk, repo)
             sweeps.format_arity(chk, repo)
             sweeps.purity_inventory(chk, repo)
+            sweeps.reviewed_audit(chk, repo)
         rc = chk.finish()
         if args.replay:
             import json
